@@ -19,6 +19,9 @@ for pr in props:
         continue
     spec = importlib.util.spec_from_file_location("chk", path)
     mod = importlib.util.module_from_spec(spec); spec.loader.exec_module(mod)
+    if not mod.CONFIG.get("ready"):
+        na.append({"property_id": pid, "reason": "check under construction (not yet claimed)"})
+        continue
     m = mod.CONFIG["manifest"]
     checks.append({
         "property_id": pid,
